@@ -326,6 +326,7 @@ def precision_histories(ctx):
     """QuadHistory.tla read generically (configuration key x precision): every history of three adaptive solves over
     {float32, float64} x {rk45, rk23} in one process; a float64 solve is as accurate as its tolerances ask whatever ran before
     (the tableau constants live on the solver classes: nothing a call does may change them)"""
+    from vlib.ctx import TimeLimit
     base = dict(MaxLen=3, KeyedByPrecision=True)
     t, cf = tlcmod.gen_mc(ctx.work, "QuadHistory", "MC_QH_ivp", base, invariants=["RuleInCallPrecision"])
     dot = os.path.join(ctx.work, "qh_ivp.dot")
@@ -366,6 +367,38 @@ def precision_histories(ctx):
                 ctx.violation("ivp/history/%s-after-%s" % (dn, "+".join(sorted(set(p_["call"]["dtype"] for p_ in hist[:pos]))) or "nothing"),
                               "solve_ivp(%s, %s) as call %d of the history %s: %s" % (m, dn, pos + 1, desc, why), {"history": desc})
                 break
+    # precision of the state x position of the (double precision) time grid: an autonomous system is translation invariant, so the
+    # solution on T0 + tau is the closed-form rotation in tau whatever T0 and whatever the precision of the state; allowed error = the
+    # bound used above for the precision of the state (2e-3 for float32 at rtol 1e-5, 1e-4 for float64 at rtol 1e-9: the time increments
+    # themselves are rounded relative to T0)
+    for sdn, sd in TD.items():
+        for T0 in (0.0, 1e3, -1e3, 1e6):
+            for m in ("rk45", "rk23", "rk4"):
+                n += 1
+                ctx.case(key=("ivp-mixed-precision", sdn, T0, m))
+                w = 10.0 if m != "rk4" else 1.0
+                Wm = torch.tensor([[0.0, w], [-w, 0.0]], dtype=sd)
+                tau = torch.linspace(0.0, 2.0, 5 if m != "rk4" else 41, dtype=torch.float64)
+                y0 = torch.tensor([1.0, 0.0], dtype=sd)
+                kw = {} if m == "rk4" else (dict(rtol=1e-5, atol=1e-6) if sdn == "f32" else dict(rtol=1e-9, atol=1e-10))
+                why = None
+                try:
+                    with TimeLimit(60):
+                        yt = xitorch.integrate.solve_ivp(lambda t_, y_: y_ @ Wm.T, T0 + tau, y0, method=m, **kw)
+                    ref = torch.stack([torch.cos(w * tau), -torch.sin(w * tau)], -1)
+                    err = float((yt.double() - ref).abs().max())
+                    allowed = 2e-3 if sdn == "f32" else 1e-4
+                    if yt.dtype != sd:
+                        why = "result dtype %s for a %s state" % (yt.dtype, sd)
+                    elif not torch.equal(yt[0], y0):
+                        why = "the first entry is not the initial state"
+                    elif not err <= allowed:
+                        why = "error %.2e against the closed-form rotation (allowed %.0e)" % (err, allowed)
+                except Exception as e:
+                    why = "raised %s: %s" % (type(e).__name__, str(e)[:100])
+                if why:
+                    ctx.violation("ivp/mixed-precision/%s" % m, "solve_ivp(%s) of a %s harmonic oscillator on the double-precision grid %g + linspace(0, 2): %s" % (m, sdn, T0, why),
+                                  {"method": m, "state": sdn, "T0": T0})
     return n
 
 
